@@ -156,7 +156,8 @@ func HC19_anchoring() {
 		"referencePoints": map[string]interface{}{"function": refKind}, "applier": map[string]interface{}{"function": applier, "params": ap}}
 	var bp model.BiasProps = props
 	snap := rt.Snapshot(current)
-	original := vh.Params(vh.Alternatives("orig.", vh.AltIds[:A], crit), chose, crit, majority.MajorityHeuristicParams{Weights: vh.Weights("orig.w.", crit, 0.125, 4)}) // differs from current: must not be used
+	origCrit := append(append(model.Criteria{}, crit...), model.Criterion{Id: "dropped-earlier", Type: model.Gain})
+	original := vh.Params(vh.Alternatives("orig.", vh.AltIds[:A], origCrit), chose, origCrit, majority.MajorityHeuristicParams{Weights: vh.Weights("orig.w.", origCrit, 0.125, 4)}) // differs from current: must not be used
 	res := c19bias().Apply(original, current, &bp, &listener)
 	rt.Assert("C19.received-state-untouched", rt.Same(snap, current))
 	rep := res.Props.(AnchoringResult)
